@@ -94,6 +94,12 @@ Definition no_connect_eintr (c : cfg) : bool :=
   | _ => true
   end.
 Definition wf (c : cfg) : bool := wf_input c && no_connect_eintr c.
+
+(** known finding [nonblocking_fd_waits]: the model run requests a readiness wait on a descriptor
+    the caller had put in non-blocking mode *)
+Definition defect_nonblocking_fd_waits (c : cfg) : bool :=
+  c_nb c && match s_waits (snd (run_call c)) with [] => false | _ => true end.
+Definition no_defect (c : cfg) : bool := no_connect_eintr c && negb (defect_nonblocking_fd_waits c).
 Definition moves_bytes (c : cfg) : bool :=
   match shape_dir (c_shape c) with Some _ => true | None => false end.
 
